@@ -11,11 +11,18 @@ const NUL: u8 = 0x00;
 pub fn encode(mut src: &[u8]) -> io::Result<Vec<u8>> {
     let mut dst = Vec::new();
 
+    // An empty buffer has no names (`split` would return a single empty name).
+    let is_empty = src.is_empty();
+
     if let Some(buf) = src.strip_suffix(&[NUL]) {
         src = buf;
     }
 
-    let names: Vec<_> = src.split(|&b| b == NUL).collect();
+    let names: Vec<_> = if is_empty {
+        Vec::new()
+    } else {
+        src.split(|&b| b == NUL).collect()
+    };
 
     write_header(&mut dst, src.len(), names.len())?;
 
